@@ -31,8 +31,8 @@ func init() {
 				n = 1500000
 			}
 			return []runner.Phase{
-				{Name: "box", Variant: "plain", Cases: c10boxCount(), Run: c10box, Required: []string{"nts_cases", "simple_cases"}},
-				{Name: "random", Variant: "plain", Cases: n, Run: c10random, Required: []string{"nts_cases", "simple_cases", "vnode_rings", "unknown_dc_keyspaces", "lookups"}},
+				{Name: "box", Variant: "plain", Cases: c10boxCount(), Run: c10box, Required: []string{"nts_cases", "simple_cases", "picks"}},
+				{Name: "random", Variant: "plain", Cases: n, Run: c10random, Required: []string{"nts_cases", "simple_cases", "vnode_rings", "unknown_dc_keyspaces", "lookups", "picks", "hashed_murmur_rings"}},
 			}
 		},
 	})
@@ -49,6 +49,19 @@ type c10cfg struct {
 	simple      bool
 	rf          int
 	dcrf        map[string]int
+	// keys: for Murmur3 rings whose tokens are the hashes of generated keys, token -> a routing key with that token
+	keys map[int64][]byte
+}
+
+// keyFor returns a routing key whose token is p, when one is known.
+func (cfg *c10cfg) keyFor(p int64) []byte {
+	switch cfg.partitioner {
+	case "OrderedPartitioner":
+		return []byte(c10tokStr(cfg.partitioner, p))
+	case "Murmur3Partitioner":
+		return cfg.keys[p]
+	}
+	return nil
 }
 
 func (cfg *c10cfg) String() string {
@@ -285,6 +298,57 @@ func c10check(c *runner.Ctx, cfg *c10cfg, probes []int64) {
 			c.Violation(fmt.Sprintf("C10:%s:lookup:%s:%s:%s", class, strings.SplitN(bad, ":", 2)[0], pos, vn), "replicas looked up for a token differ from Cassandra's placement: "+bad, wit(fmt.Sprintf("lookup %d: driver %v, Cassandra %v", p, ids, nodeIDs(exp))))
 		}
 	}
+	// the same lookups through the policy's own Pick, with a routing key that hashes to the probe
+	// (all hosts are up and the fallback has one tier, so the plan starts with the replica list)
+	for _, p := range probes {
+		key := cfg.keyFor(p)
+		if key == nil {
+			continue
+		}
+		i := ring.Index(big.NewInt(p))
+		exp, okx := expected(i)
+		if !okx || len(exp) == 0 {
+			continue
+		}
+		var seq []*gocql.HostInfo
+		var overflow bool
+		panicked := ""
+		func() {
+			defer func() {
+				if r := recover(); r != nil {
+					panicked = fmt.Sprint(r)
+				}
+			}()
+			seq, _, overflow = drain(pol.Pick(gocql.VerifNewQuery("ks", key)), 4*len(hosts)+8)
+		}()
+		c.Add("picks", 1)
+		pos := "between"
+		switch {
+		case p < ring.Token(0).Int64():
+			pos = "below-min"
+		case p > ring.Token(ring.Len()-1).Int64():
+			pos = "above-max"
+		case ring.Token(i).Int64() == p:
+			pos = "equal"
+		}
+		if panicked != "" {
+			c.Violation(fmt.Sprintf("C10:%s:pick:panic:%s:%s", class, pos, vn), "the token-aware policy panicked looking up the replicas of a token: "+panicked, wit(fmt.Sprintf("routing key %x (token %d)", key, p)))
+			continue
+		}
+		if overflow {
+			continue // C11's business
+		}
+		if len(seq) > len(exp) {
+			seq = seq[:len(exp)]
+		}
+		var ids []string
+		for _, h := range seq {
+			ids = append(ids, h.HostID())
+		}
+		if bad := c10compare(cfg.simple, ids, exp, ring.Owner(i), nodesN, cfg); bad != "" {
+			c.Violation(fmt.Sprintf("C10:%s:pick:%s:%s:%s", class, strings.SplitN(bad, ":", 2)[0], pos, vn), "the hosts the token-aware policy offers first for a routing key are not Cassandra's replicas of its token: "+bad, wit(fmt.Sprintf("routing key %x (token %d): offered first %v, Cassandra %v", key, p, ids, nodeIDs(exp))))
+		}
+	}
 }
 
 func nodeIDs(ns []*cqlref.Node) []string {
@@ -385,6 +449,9 @@ func c10box(c *runner.Ctx, i int) {
 	}
 	for a := 0; a < total; a++ {
 		cfg := &c10cfg{partitioner: "Murmur3Partitioner"}
+		if variant%2 == 1 {
+			cfg.partitioner = "OrderedPartitioner" // token = key bytes: lookups can also go through Pick
+		}
 		x := a
 		// token layout: permutation of positions determined by variant
 		positions := r.Perm(bp.nodes * bp.toks)
@@ -435,12 +502,30 @@ func c10random(c *runner.Ctx, i int) {
 	}
 	used := map[int64]bool{}
 	adjacent := r.Intn(2) == 0
+	hashed := cfg.partitioner == "Murmur3Partitioner" && r.Intn(2) == 0
+	if hashed {
+		cfg.keys = map[int64][]byte{}
+		c.Add("hashed_murmur_rings", 1)
+	}
+	newKey := func() (int64, []byte) {
+		for {
+			k := make([]byte, 1+r.Intn(24))
+			r.Read(k)
+			t := cqlref.Murmur3Token(k)
+			if _, dup := cfg.keys[t]; !dup && t > -1<<62 && t < 1<<62 {
+				cfg.keys[t] = k
+				return t, k
+			}
+		}
+	}
 	next := int64(0)
 	for k := 0; k < nn; k++ {
 		n := c10node{id: fmt.Sprintf("n%d", k), dc: fmt.Sprintf("dc%d", r.Intn(nd)), rack: fmt.Sprintf("r%d", r.Intn(1+r.Intn(nr)))}
 		for t := 0; t < nt; t++ {
 			var tok int64
-			if adjacent {
+			if hashed {
+				tok, _ = newKey()
+			} else if adjacent {
 				next += int64(1 + r.Intn(3))
 				tok = next
 			} else {
@@ -484,6 +569,12 @@ func c10random(c *runner.Ctx, i int) {
 	for k := 0; k < 6; k++ {
 		t := all[r.Intn(len(all))]
 		probes = append(probes, t, t+1, t-1)
+	}
+	if hashed {
+		for k := 0; k < 8; k++ {
+			t, _ := newKey() // tokens between ring tokens, with a known key
+			probes = append(probes, t)
+		}
 	}
 	rfsum := cfg.rf
 	for _, v := range cfg.dcrf {
